@@ -212,6 +212,19 @@ def query_triples(rng, X, n, klass):
       T[i, 2] = T[i, 0]
       T[i, 2, k] -= rng.randn() * span[k]
     return T
+  if klass == 'ladder':
+    # one batch holding collinear triples (0, g u, 2 g u) for every decade of
+    # g from 1e-100 to 1e100: whatever a computation does to protect itself
+    # against the largest member of a batch must not flush the small ones
+    ks = np.arange(-100, 101)
+    T = np.zeros((len(ks), 3, d))
+    for i, k in enumerate(ks):
+      u = rng.randn(d)
+      u /= np.linalg.norm(u)
+      g = 10.0 ** float(k) * rng.uniform(1.0, 9.0)
+      T[i, 1] = g * u
+      T[i, 2] = 2 * g * u
+    return T[rng.permutation(len(T))]
   raise ValueError(klass)
 
 
@@ -239,7 +252,7 @@ def nullspace_triples(rng, X, L, n):
 
 
 QUERY_CLASSES = ['train', 'gauss', 'dup', 'ulp', 'far', 'magnitude',
-                 'mixed_magnitude', 'int', 'axis']
+                 'mixed_magnitude', 'int', 'axis', 'ladder']
 
 
 def spd_matrix(rng, d, cond=10.0):
